@@ -347,6 +347,69 @@ def run_shard(cfg):
         counters.inc("kdf_calls", 2)
     finally:
         _A.scrypt.Scrypt = real_scrypt
+    # ---- a server that checks logins on several threads at once (a thread pool behind the HTTP router): each call gets ITS
+    #      password's verdict.  The boundary to the cryptography package yields for a moment (the constructor sleeps 0-2 ms: the
+    #      derivation behind it releases the GIL anyway), so calls overlap between pre-hash and derivation
+    if cfg["shard"] % 3 == 1:
+        import threading
+        import time as _time
+        real_scrypt2 = _A.scrypt.Scrypt
+        yr = rng("C19y", cfg["seed"], cfg["shard"])
+        ylock = threading.Lock()
+
+        class YieldingScrypt(object):
+            def __init__(self, *a, **kw):
+                with ylock:
+                    d = yr.random() * 0.002
+                _time.sleep(d)
+                self._real = real_scrypt2(*a, **kw)
+
+            def derive(self, km):
+                return self._real.derive(km)
+
+            def verify(self, km, expected):
+                return self._real.verify(km, expected)
+        n_threads = 4
+        pws = [b"user-%d-" % k + r.randbytes(6) for k in range(n_threads)]
+        recs = [ref_hash(pw, 16, 1, 1, r.randbytes(16), 24) for pw in pws]
+        results, rlock = [], threading.Lock()
+
+        def worker(k):
+            out_ = []
+            try:
+                hk = Auth.hash_password(pws[k])
+                out_.append(("own-hash-right", Auth.verify_password(pws[k], hk), True))
+                for it in range(40):
+                    if it % 2 == 0:
+                        out_.append(("right", Auth.verify_password(pws[k], recs[k]), True))
+                    else:
+                        out_.append(("wrong", Auth.verify_password(pws[(k + 1) % n_threads], recs[k]), False))
+            except BaseException as e:
+                out_.append(("raised", repr(e), None))
+            with rlock:
+                results.append((k, out_))
+        _A.scrypt.Scrypt = YieldingScrypt
+        try:
+            ths = [threading.Thread(target=worker, args=(k,)) for k in range(n_threads)]
+            for t_ in ths:
+                t_.start()
+            for t_ in ths:
+                t_.join(120)
+        finally:
+            _A.scrypt.Scrypt = real_scrypt2
+        for k, out_ in results:
+            for what, got, want_ in out_:
+                counters.inc("concurrent_auth_calls")
+                counters.inc("kdf_calls")
+                if what == "raised":
+                    viol("concurrent-call-raised", "thread %d: an Auth call with well-formed arguments raised %s while other threads were inside Auth" % (k, got), {"thread": k})
+                elif got is not want_:
+                    viol("true-on-wrong-password" if want_ is False else "right-password-rejected",
+                         "thread %d (%d threads inside Auth at once): verify_password of the %s password returned %r" % (k, n_threads, "right" if want_ else "another user's", got), {"thread": k, "what": what})
+                else:
+                    counters.inc("concurrent_auth_calls_correct")
+        if len(results) != n_threads:
+            counters.inc("concurrent_auth_threads_not_finished")
     # ---- fresh salts in forked workers: two children of this process hash the same password at once; their salts differ from each
     #      other and from the parent's
     if cfg["shard"] % 3 == 0:
